@@ -20,11 +20,21 @@ Families of base schemas (unit kinds):
                  the worlds, in the root and in the referenced document)
   other-id       the other drafts' spelling of the identifier above a relative reference
   retrieved-doc  foreign keywords in a document that a handler serves
+  cli            the command-line route: jsonschema.cli.run in-process on files of a private scratch directory,
+                 `--base-uri`, `-V <class>` / `$schema`, relative references to local `file:` documents
+  class-history  pre-histories on the class level: other classes are derived from the observed class (create
+                 from its VALIDATORS object / its items, extend) or from the caller's dict, and their tables
+                 then grow in place by implementations of every keyword foreign to the observed draft
 """
 import copy
+import io
 import json
+import os
+import shutil
+import tempfile
 
 from jsonschema import RefResolver, exceptions
+from jsonschema import validators as _jsv
 
 from mc.props import _e1
 from mc.ref import spec
@@ -130,6 +140,8 @@ def values_for(name, tier):
     vals = list(HOT.get(name, []))
     if tier == "would-fail":
         return vals or GENERIC[1:2]
+    if tier == "would-fail-and-one":
+        return dedupe(vals + GENERIC[1:2])
     vals += GENERIC if tier == "thorough" else GENERIC[1::5]
     return dedupe(vals)
 
@@ -184,6 +196,35 @@ def observe(d, S, x, store=None, v=None):
         return "UnknownType"
     except Exception as e:
         return "EXC " + type(e).__name__
+
+
+def observe_seq(d, S, x, v=None):
+    """The errors in the order in which iter_errors yields them (validate() raises the first)."""
+    try:
+        if v is None:
+            v = build(d, S)
+        return [ident(e) for e in v.iter_errors(x)]
+    except Exception as e:
+        return "EXC " + type(e).__name__
+
+
+def observe_raised(d, S, x, via):
+    """The error that Validator.validate() / jsonschema.validate() raises (None: none)."""
+    import jsonschema
+    try:
+        if via == "validate":
+            _e1.CLS[d](S).validate(x)
+        else:
+            jsonschema.validate(instance=x, schema=S, cls=_e1.CLS[d])
+        return None
+    except exceptions.ValidationError as e:
+        return ident(e)
+    except Exception as e:
+        return "EXC " + type(e).__name__
+
+
+UNKNOWN_60 = dict(("x-%d" % i, [True, "a", {"type": "string"}, 0][i % 4]) for i in range(60))
+UNKNOWN_40 = dict(list(UNKNOWN_60.items())[:40])
 
 
 def insert(S, pos, extra):
@@ -478,6 +519,268 @@ UURL = [{"a": 0}, {"a": "x"}, {"b": 0}, {"b": "x"}, {}]
 URL_IDVALS = [F_ROOT, F_ROOT + "#", "file:///c10-nonexistent/", "root.json"]
 
 
+# ---- the command-line route ---------------------------------------------------------------------------------------
+
+CLI_DOCS = {"num.json": {"type": "integer"}, "sub/num.json": {"type": "string"},
+            "sub/ghost.json": {"type": "string"}, "other.json": {"type": "boolean"}}
+# validated by one run, in this order; the last one reaches the reference that names no file (the run dies there)
+CLI_INSTANCES = [1, "one", {"n": 1, "m": 1, "s": {"v": 1}}, {"n": "x", "m": "x", "s": {"v": "x"}}, [1, "x"], {"g": 1}]
+CLI_POS = [(), ("properties", "s"), ("definitions", "t")]
+
+
+def cli_schema(d, declare):
+    """n / items / definitions.t -> num.json (integers, relative to --base-uri), m -> sub/num.json (strings),
+    s: a subschema that establishes the scope sub/ with the draft's own id keyword, g -> ghost.json, which
+    exists under sub/ only."""
+    idk = "id" if d <= 4 else "$id"
+    S = {"$schema": META[d] + "#"} if declare else {}
+    S.update({"properties": {"n": {"$ref": "num.json"}, "m": {"$ref": "sub/num.json"},
+                             "s": {idk: "sub/", "properties": {"v": {"$ref": "num.json"}}},
+                             "g": {"$ref": "ghost.json"}, "k": {"$ref": "#/definitions/t"}},
+              "items": {"$ref": "num.json"}, "definitions": {"t": {"type": "integer", "minimum": 0}}})
+    return S
+
+
+def cli_id_values(root_uri):
+    return ["sub/", "sub/schema.json", "other.json", "./sub/deeper/../", root_uri + "sub/", root_uri + "sub/x.json",
+            "file:///c10-nonexistent/"]
+
+
+def cli_observe(d, S, declare, base_kind, files=CLI_DOCS, instances=CLI_INSTANCES):
+    """(exit status or the exception that escaped, stdout, stderr) of one in-process run of the command line in
+    a fresh private directory, with the directory's name replaced in the texts.  base_kind: --base-uri is the
+    directory ('dir') or the schema file ('file')."""
+    from jsonschema import cli
+    root = tempfile.mkdtemp(prefix="c10-cli.", dir="/dev/shm" if os.path.isdir("/dev/shm") else None)
+    try:
+        for rel, doc in files.items():
+            path = os.path.join(root, rel)
+            os.makedirs(os.path.dirname(path), exist_ok=True)
+            with open(path, "w") as f:
+                json.dump(doc, f)
+        root_uri = "file://" + root + "/"
+        S = json.loads(json.dumps(S).replace("<ROOT-URI>", root_uri))
+        with open(os.path.join(root, "schema.json"), "w") as f:
+            json.dump(S, f)
+        argv = []
+        for i, x in enumerate(instances):
+            path = os.path.join(root, "instance%d.json" % i)
+            with open(path, "w") as f:
+                json.dump(x, f)
+            argv += ["-i", path]
+        argv += ["--base-uri", root_uri + ("schema.json" if base_kind == "file" else "")]
+        if not declare:
+            argv += ["-V", "Draft%dValidator" % d]
+        argv.append(os.path.join(root, "schema.json"))
+        out, err = io.StringIO(), io.StringIO()
+        try:
+            code = cli.run(cli.parse_args(argv), stdout=out, stderr=err)
+        except SystemExit as e:
+            code = "SystemExit %r" % (e.code,)
+        except Exception as e:
+            code = "%s: %s" % (type(e).__name__, str(e)[:300])
+        return [str(code).replace(root, "<ROOT>"), out.getvalue().replace(root, "<ROOT>"),
+                err.getvalue().replace(root, "<ROOT>")]
+    finally:
+        shutil.rmtree(root, ignore_errors=True)
+
+
+def run_cli(acc, d, ctx):
+    other = "$id" if d <= 4 else "id"
+    names = foreign_names(d)
+    for declare in (False, True):
+        for base_kind in ("dir", "file"):
+            S = cli_schema(d, declare)
+            if not _e1.accepted(d, S):
+                raise AssertionError("the command-line base schema is not valid: %r" % (S,))
+            base = cli_observe(d, S, declare, base_kind)
+            k = "cli-base-exit-" + base[0][:40]
+            acc.outcomes[k] = acc.outcomes.get(k, 0) + 1
+            for pos in CLI_POS:
+                for name in names:
+                    if consulted(d, S, pos, name):
+                        continue
+                    vals = values_for(name, ctx.tier if ctx.thorough else "would-fail")
+                    if name == other:
+                        vals = cli_id_values("<ROOT-URI>") + vals
+                    for val in dedupe(vals):
+                        S2 = insert(S, pos, {name: val})
+                        if S2 is None:
+                            continue
+                        if not _e1.accepted(d, json.loads(json.dumps(S2).replace("<ROOT-URI>", "file:///x/"))):
+                            acc.skipped += 1
+                            continue
+                        got = cli_observe(d, S2, declare, base_kind)
+                        acc.count(got == base, True, True)
+                        if got != base:
+                            kind = "other-draft-id-on-the-command-line" if name == other else "foreign-on-the-command-line"
+                            acc.viol.append({
+                                "signature": "C10|%s|%s" % (kind, name), "size": len(str(S2)),
+                                "case": {"draft": d, "cli": {"schema": S, "edited": S2, "declare": declare,
+                                                             "base_uri": base_kind, "files": CLI_DOCS,
+                                                             "instances": CLI_INSTANCES}},
+                                "detail": {"before": base, "after": got,
+                                           "what": {"kind": kind, "name": name, "pos": list(pos)}}})
+    acc.samples.append({"draft": d, "command_line": "jsonschema -i instance0.json ... --base-uri file://<dir>/ "
+                        "[-V Draft%dValidator] schema.json" % d, "schema": cli_schema(d, False),
+                        "files": CLI_DOCS, "inserted": "every foreign name at %r" % (CLI_POS,)})
+
+
+# ---- pre-histories on the class level ---------------------------------------------------------------------------
+
+def always_fails(validator, value, instance, schema):
+    yield exceptions.ValidationError("a keyword the draft does not define was applied")
+
+
+CLASS_OPS = ["create-from-the-class-table", "create-from-the-table-items", "extend-then-grow", "extend-with",
+             "grow-the-callers-dict", "grow-the-callers-dict-and-create-again"]
+H_BASES = [{"type": "integer"}, {"properties": {"a": {"type": "integer"}}}, {"items": [{}], "additionalItems": False}]
+H_INSTS = [1, "x", {"a": "x"}, [1, 2]]
+
+
+def class_snapshot():
+    return (dict((d, (cls.VALIDATORS, dict(cls.VALIDATORS))) for d, cls in _e1.CLS.items()),
+            dict(_jsv.validators), dict(_jsv.meta_schemas))
+
+
+def class_restore(snap):
+    """Put the stock tables and the registries back; returns what had to be repaired; raises if it cannot."""
+    repaired = []
+    tables, reg1, reg2 = snap
+    for d, (obj, content) in tables.items():
+        cls = _e1.CLS[d]
+        if cls.VALIDATORS is not obj:
+            cls.VALIDATORS = obj
+            repaired.append("Draft%dValidator.VALIDATORS rebound" % d)
+        if dict(obj) != content:
+            obj.clear()
+            obj.update(content)
+            repaired.append("Draft%dValidator.VALIDATORS content" % d)
+    for live, saved, name in ((_jsv.validators, reg1, "validators"), (_jsv.meta_schemas, reg2, "meta_schemas")):
+        if dict(live) != saved:
+            for k in list(live):
+                del live[k]
+            for k, v in saved.items():
+                live[k] = v
+            repaired.append("registry " + name)
+    now = class_snapshot()
+    if [(d, c) for d, (_, c) in sorted(now[0].items())] != [(d, c) for d, (_, c) in sorted(tables.items())] \
+            or now[1] != reg1 or now[2] != reg2:
+        raise RuntimeError("the class tables / registries could not be restored")
+    return repaired
+
+
+def class_history(d, observed, ops, probe, probe_after=None):
+    """Runs one history and returns probe(observed class) before and probe_after(observed class) after it.
+    observed 'stock': the draft's own class; 'plain': a class created from the caller's own dict (a copy of the
+    stock table).  Every op derives a class and lets a table grow IN PLACE by an always-failing implementation
+    of every keyword foreign to draft d.  The stock tables and the registries are restored and verified."""
+    stock = _e1.CLS[d]
+    impls = dict((k, always_fails) for k in foreign_names(d))
+    snap = class_snapshot()
+    try:
+        table = dict(stock.VALIDATORS)
+        kw = dict(meta_schema=stock.META_SCHEMA, type_checker=stock.TYPE_CHECKER, id_of=stock.ID_OF)
+        obs = stock if observed == "stock" else _jsv.create(validators=table, **kw)
+        before = probe(obs)
+        for op in ops:
+            if op == "create-from-the-class-table":
+                new = _jsv.create(validators=obs.VALIDATORS, **kw)
+                new.VALIDATORS.update(impls)
+            elif op == "create-from-the-table-items":
+                new = _jsv.create(validators=list(obs.VALIDATORS.items()), **kw)
+                new.VALIDATORS.update(impls)
+            elif op == "extend-then-grow":
+                new = _jsv.extend(obs, {})
+                new.VALIDATORS.update(impls)
+            elif op == "extend-with":
+                new = _jsv.extend(obs, impls)
+            elif op == "grow-the-callers-dict":
+                table.update(impls)
+            elif op == "grow-the-callers-dict-and-create-again":
+                table.update(impls)
+                new = _jsv.create(validators=table, **kw)
+            else:
+                raise KeyError(op)
+        after = (probe_after or probe)(obs)
+    finally:
+        repaired = class_restore(snap)
+    return before, after, repaired
+
+
+def class_histories(observed, depth):
+    ops = [o for o in CLASS_OPS if observed == "plain" or "callers-dict" not in o]
+    out, layer = [], [[]]
+    for _ in range(depth):
+        layer = [h + [o] for h in layer for o in ops]
+        out += layer
+    return out
+
+
+def h_edits(d):
+    """(base schema, edited schema, instance) of the insertion differential that is observed around a history."""
+    out = []
+    for S in H_BASES:
+        if not _e1.accepted(d, S):
+            continue
+        for pos in positions(S):
+            for name in foreign_names(d):
+                if consulted(d, S, pos, name):
+                    continue
+                S2 = insert(S, pos, {name: values_for(name, "would-fail")[0]})
+                if S2 is not None and _e1.accepted(d, S2):
+                    out.append((S, S2, name))
+    return out
+
+
+def run_class_history(acc, d, ctx):
+    edits = h_edits(d)
+
+    def obs(cls, S, x):
+        try:
+            return sorted((ident(e) for e in cls(S).iter_errors(x)), key=repr)
+        except Exception as e:
+            return "EXC " + type(e).__name__
+
+    def probe(cls):
+        return [[obs(cls, S, x) for x in H_INSTS] for S in H_BASES if _e1.accepted(d, S)]
+
+    def probe_after(cls):
+        return [[obs(cls, S2, x) for x in H_INSTS] for _, S2, _ in edits]
+
+    for observed in ("stock", "plain"):
+        bad_ops = []
+        for ops in class_histories(observed, 3 if ctx.thorough else 2):
+            if any(all(o in ops for o in bad) for bad in bad_ops):
+                acc.outcomes["class-histories-subsumed-by-a-shorter-violating-one"] = acc.outcomes.get(
+                    "class-histories-subsumed-by-a-shorter-violating-one", 0) + 1
+                continue
+            before, after, repaired = class_history(d, observed, ops, probe, probe_after)
+            acc.outcomes["class-histories"] = acc.outcomes.get("class-histories", 0) + 1
+            if repaired:
+                acc.outcomes["class-histories-after-which-a-stock-table-had-to-be-repaired"] = acc.outcomes.get(
+                    "class-histories-after-which-a-stock-table-had-to-be-repaired", 0) + 1
+            fresh = dict((json.dumps(S), row) for S, row in zip([S for S in H_BASES if _e1.accepted(d, S)], before))
+            found = False
+            for (S, S2, name), row in zip(edits, after):
+                for x, got, b in zip(H_INSTS, row, fresh[json.dumps(S)]):
+                    acc.count(got == b, b, True)
+                    if got != b:
+                        found = True
+                        acc.viol.append({
+                            "signature": "C10|foreign-keyword-active-after-class-history|%s:%s" % (observed, "+".join(ops)),
+                            "size": len(str(S2)) + 40 * len(ops),
+                            "case": {"draft": d, "class_history": {"observed": observed, "ops": ops}, "schema": S,
+                                     "edited": S2, "instance": x},
+                            "detail": {"before": b, "after": got, "what": {"kind": "class-history", "name": name},
+                                       "stock_tables_repaired_afterwards": repaired}})
+            if found:
+                bad_ops.append(ops)
+    acc.samples.append({"draft": d, "class_histories": class_histories("plain", 1),
+                        "tables_grow_by": "always-failing implementations of %d foreign names" % len(foreign_names(d)),
+                        "observed_differential": "%d single-keyword insertions x %d instances" % (len(edits), len(H_INSTS))})
+
+
 def world_configs(d, tier):
     """(with_ids, declared $schema or None, document, position): one work unit each."""
     out = []
@@ -516,6 +819,7 @@ def plan(ctx):
         units += [(d, "scopes-ref-sibling", i, 2) for i in range(2)]
         units += [(d, "scopes", i, 2) for i in range(2)]
         units += [(d, "ref-sibling", 0, 1), (d, "other-id", 0, 1), (d, "retrieved-doc", 0, 1)]
+        units += [(d, "cli", 0, 1), (d, "class-history", 0, 1)]
     sizes["world_schema_like_values"] = len(schemaish_values())
     sizes["world_instances"] = len(UW)
     sizes["world_insert_positions"] = len(W_POS)
@@ -533,11 +837,15 @@ def plan(ctx):
                  "drafts' keywords, 2019-09+ names, arbitrary names, the draft's annotations incl. $schema with every "
                  "registered metaschema id with and without '#', multi-keyword combinations, $schema of another draft "
                  "together with all of that draft's keywords) x values (values that would fail if the keyword were "
-                 "active + hostile generic values) x 9 (quick) / 16 (thorough) instances; "
+                 "active + hostile generic values) x 9 (quick) / 16 (thorough) instances; plus MANY foreign names "
+                 "together at each position (all foreign names / those and x-0..x-59 / x-0..x-39: more members than "
+                 "any keyword table), where also the ORDER of the errors from iter_errors and, for instances with >= 2 "
+                 "errors, the error raised by Validator.validate() and by jsonschema.validate(cls=...) must be "
+                 "unchanged; "
                  "[empty] the empty-subschema closure of the grammar (every single / sibling group (thorough: / nested "
                  "schema) with {} substituted at each subschema position, and at all of them, distinct up to key "
-                 "order, minus the insert bases) x (each empty subschema, and the subschema that holds it (quick: there "
-                 "only the would-fail value(s) of each name)) x the same "
+                 "order, minus the insert bases) x (each empty subschema (quick: the would-fail value(s) of each name "
+                 "and `true`), and the subschema that holds it (quick: only the would-fail value(s))) x the same "
                  "names and values x the instances (of 12, with an array longer than every tuple) whose JSON type some "
                  "keyword of the schema applies to (thorough: all 12); "
                  "[world] two-document reference worlds (ids declared + relative references / nothing declared + "
@@ -563,6 +871,18 @@ def plan(ctx):
                  "plus every keyword of any draft next to a $ref (5 small bases and every $ref of the worlds), and the "
                  "other draft's id spelling above a relative reference and at the root of a schema whose references go "
                  "through the URL it names; "
+                 "[cli] jsonschema.cli.run in-process on a private scratch directory (schema, 6 instance files validated "
+                 "by one run, local documents num.json / sub/num.json / sub/ghost.json / other.json), --base-uri = the "
+                 "directory / the schema file, -V <class> / $schema, relative references, a scope subschema and a "
+                 "reference to a file that exists only under sub/; every foreign name with its would-fail value(s) "
+                 "(thorough: all values) and the other id spelling with 7 relative / absolute values, at the root, the "
+                 "scope subschema and a definition; exit status / escaped exception, stdout and stderr identical; "
+                 "[class-history] observed class = the stock class / a class created from the caller's copy of its "
+                 "table; every sequence of length <= 2 (thorough 3) of {create from the class's VALIDATORS object, "
+                 "create from its items, extend then grow, extend with, (caller's dict:) grow, grow and create again}, "
+                 "each letting a table grow in place by an always-failing implementation of every foreign name; then "
+                 "every single-keyword insertion into 3 base schemas x 4 instances must give the errors of the base "
+                 "schema before the history; stock tables and registries restored and verified after every history; "
                  "[pre-histories] the edited schema as ONE object is first given to validators of other drafts "
                  "(constructed without resolver + instances validated), then to the observed draft's class, and must "
                  "give the errors of the unedited schema used fresh: for the id cases every sequence without "
@@ -620,6 +940,7 @@ def insert_at(acc, d, S, pos, names, tier, UQ, base, multis, pre=None):
     node_empty = _get(S, pos) == {}
     tried, hit, found, single_hits = set(), set(), [], set()
     pre_tried, pre_hit, pre_found = set(), set(), []
+    bulk = {}
     for name in names:
         if consulted(d, S, pos, name):
             continue
@@ -632,6 +953,7 @@ def insert_at(acc, d, S, pos, names, tier, UQ, base, multis, pre=None):
                 acc.skipped += 1
                 continue
             tried.add(name)
+            bulk.setdefault(name, val)
             v2 = build(d, S2)
             for i, (x, b) in enumerate(zip(UQ, base)):
                 got = observe(d, S2, x, None, v2)
@@ -653,7 +975,8 @@ def insert_at(acc, d, S, pos, names, tier, UQ, base, multis, pre=None):
     where = "at-the-root"
     if pos:
         where = ("in-empty-subschema-of-" if node_empty else "in-subschema-of-") + str(kw)
-    if tried and hit == tried and len(tried) > 3:
+    all_hit = bool(tried) and hit == tried and len(tried) > 3
+    if all_hit:
         for v in found:
             v["detail"]["what"]["kind"] = "any-foreign-keyword"
             v["signature"] = "C10|any-foreign-keyword|%s" % where
@@ -662,6 +985,36 @@ def insert_at(acc, d, S, pos, names, tier, UQ, base, multis, pre=None):
             v["detail"]["what"]["kind"] = "any-foreign-keyword-after-use-by-other-drafts"
             v["signature"] = "C10|any-foreign-keyword-after-use-by-other-drafts|%s" % where
     acc.viol += found + pre_found
+    # many foreign keywords at once (more members than any keyword table has): the same errors in the same
+    # order from iter_errors, the same error raised by Validator.validate() and by jsonschema.validate()
+    base_seq = None
+    for label, extra in (("all-foreign-names", bulk), ("all-foreign-names-and-60-unknown-names", dict(bulk, **UNKNOWN_60)),
+                         ("40-unknown-names", UNKNOWN_40)):
+        S2 = insert(S, pos, extra) if len(extra) > 1 else None
+        if S2 is None or not _e1.accepted(d, S2):
+            continue
+        if base_seq is None:
+            base_seq = [observe_seq(d, S, x) for x in UQ]
+        v2 = build(d, S2)
+        for i, x in enumerate(UQ):
+            b, got = base_seq[i], observe_seq(d, S2, x, v2)
+            same_set = sorted(got, key=repr) == sorted(b, key=repr) if isinstance(got, list) and isinstance(b, list) \
+                else got == b
+            acc.count(got == b, b, True)
+            diffs = []
+            if got != b and (same_set or not (all_hit or any((k, i) in single_hits for k in extra))):
+                diffs.append(("iter_errors", "errors" if not same_set else "order-of-the-errors", b, got))
+            if isinstance(b, list) and len(b) >= 2 and same_set:
+                for via in ("validate", "jsonschema.validate"):
+                    rb, rg = observe_raised(d, S, x, via), observe_raised(d, S2, x, via)
+                    acc.count(rg == rb, True, True)
+                    if rg != rb:
+                        diffs.append((via, "error-raised-by-" + via, rb, rg))
+            for via, name, bb, gg in diffs:
+                v = violation(d, S, S2, x, bb, gg, {"kind": "many-foreign-keywords", "hot": True, "name": name,
+                                                     "inserted": label})
+                v["case"]["ordered"] = via
+                acc.viol.append(v)
     for kind, label, extra in multis:
         S2 = insert(S, pos, extra)
         if S2 is None or not _e1.accepted(d, S2):
@@ -720,7 +1073,8 @@ def run_empty(acc, d, shard, n, ctx):
                         where.append(p)
         for pos in where:
             inside = _get(S, pos) == {}
-            insert_at(acc, d, S, pos, names, ctx.tier if inside or ctx.thorough else "would-fail", UQ, base, multis)
+            insert_at(acc, d, S, pos, names, ctx.tier if ctx.thorough else "would-fail-and-one" if inside
+                      else "would-fail", UQ, base, multis)
             k = "positions-inside-an-empty-subschema" if _get(S, pos) == {} else "positions-next-to-an-empty-subschema"
             acc.outcomes[k] = acc.outcomes.get(k, 0) + 1
         if len(acc.samples) < 1 and bi % 37 == 5:
@@ -874,7 +1228,8 @@ def ref_siblings(acc, d, world, refnodes, insts, modes, tier, with_ids):
 
 def run_world_ref_sibling(acc, d, idx, ctx):
     with_ids = bool(idx)
-    ref_siblings(acc, d, make_world(d, with_ids), W_REFNODES, UW, ("store",), ctx.tier, with_ids)
+    ref_siblings(acc, d, make_world(d, with_ids), W_REFNODES, UW, ("store",),
+                 ctx.tier if ctx.thorough else "would-fail", with_ids)
 
 
 def scope_modes(with_root_id, ctx):
@@ -905,7 +1260,7 @@ def run_scopes(acc, d, idx, ctx):
         for name in foreign_names(d):
             if consulted(d, world[doc], pos, name):
                 continue
-            vals = values_for(name, ctx.tier) + (S_IDVALS if name == other_id else [])
+            vals = values_for(name, ctx.tier if ctx.thorough else "would-fail") + (S_IDVALS if name == other_id else [])
             if ctx.thorough:
                 vals = vals + [{sp: idv, "type": "array"} for sp in ("$id", "id") for idv in S_IDVALS]
             for val in dedupe(vals):
@@ -986,6 +1341,12 @@ def run_unit(unit, ctx):
         return acc.result()
     if kind == "other-id":
         run_other_id(acc, d, ctx)
+        return acc.result()
+    if kind == "cli":
+        run_cli(acc, d, ctx)
+        return acc.result()
+    if kind == "class-history":
+        run_class_history(acc, d, ctx)
         return acc.result()
     ev = nt = skipped = 0
     viol, samples, outcomes = [], [], {}
@@ -1106,10 +1467,36 @@ def replay(case, ctx):
         a = observe_served(d, case["schema"], case["served_before"], case["instance"])
         b = observe_served(d, case["schema"], case["served_after"], case["instance"])
         return {"reproduced": a != b, "before": a, "after": b}
+    if "cli" in case:
+        c = case["cli"]
+        a = cli_observe(d, c["schema"], c["declare"], c["base_uri"], c["files"], c["instances"])
+        b = cli_observe(d, c["edited"], c["declare"], c["base_uri"], c["files"], c["instances"])
+        return {"reproduced": a != b, "before": a, "after": b}
+    if "class_history" in case:
+        h = case["class_history"]
+
+        def probe(cls):
+            def obs(S):
+                try:
+                    return sorted((ident(e) for e in cls(S).iter_errors(case["instance"])), key=repr)
+                except Exception as e:
+                    return "EXC " + type(e).__name__
+            return obs(case["schema"]), obs(case["edited"])
+        before, after, repaired = class_history(d, h["observed"], h["ops"], probe)
+        return {"reproduced": before[0] != after[1], "before": before[0], "after": after[1],
+                "stock_tables_repaired_afterwards": repaired}
     if "pre" in case:
         a = observe(d, case["schema"], case["instance"])
         insts = case.get("instances_after") or [case["instance"]]
         b = observe_after(d, case["edited"], case["pre"], insts, case["pre_instances"])[-1]
+        return {"reproduced": a != b, "before": a, "after": b}
+    if case.get("ordered") in ("validate", "jsonschema.validate"):
+        a = observe_raised(d, case["schema"], case["instance"], case["ordered"])
+        b = observe_raised(d, case["edited"], case["instance"], case["ordered"])
+        return {"reproduced": a != b, "before": a, "after": b}
+    if case.get("ordered"):
+        a = observe_seq(d, case["schema"], case["instance"])
+        b = observe_seq(d, case["edited"], case["instance"])
         return {"reproduced": a != b, "before": a, "after": b}
     store = case.get("store")
     a = observe(d, case["schema"], case["instance"], store)
